@@ -28,7 +28,7 @@ THEOREMS = {
     "C01": _INERT + [("XV.Helpers.kw_defaults_length", _HELP), ("XV.Helpers.defaults_le_positional", _HELP), ("XV.Helpers.args_order", _HELP),
                      ("XV.Src.kept_no_trivia", _TS), ("XV.Src.kept_sublist", _TS), ("XV.Span.span_end_is_last_significant_token", "XonshVerif.Proofs.Span"), ("XV.Span.span_well_oriented", "XonshVerif.Properties.C04Span")],
     "C07": [("XV.WithMacro.with_macro_lines_verbatim", "XonshVerif.Proofs.WithMacro"), ("XV.WithMacro.step_facts", "XonshVerif.Proofs.WithMacro"), ("XV.Macro.loop_partition", _PM), ("XV.Macro.param_is_concat", _PM), ("XV.Macro.concat_is_source_slice", _PM)],
-    "C08": [("XV.Tz.token_starts_in_text", "XonshVerif.Properties.C11Tok"), ("XV.Tz.gaps_are_indentation_or_continuation", "XonshVerif.Properties.C08"), ("XV.Tz.between_consecutive_tokens", "XonshVerif.Properties.C08"), ("XV.Tz.after_the_last_token", "XonshVerif.Properties.C08"), ("XV.Tz.tokenizeLines_g", "XonshVerif.Proofs.TokGaps"), ("XV.Rx.m_onlyChars", "XonshVerif.Proofs.RegexChars"),
+    "C08": [("XV.Tz.token_starts_in_text", "XonshVerif.Properties.C11Tok"), ("XV.Tz.gaps_are_indentation_or_continuation", "XonshVerif.Properties.C08"), ("XV.Tz.between_consecutive_tokens", "XonshVerif.Properties.C08"), ("XV.Tz.after_the_last_token", "XonshVerif.Properties.C08"), ("XV.Tz.before_the_first_token", "XonshVerif.Properties.C08"), ("XV.Tz.Gap.chars", "XonshVerif.Proofs.TokGaps"), ("XV.Tz.tokenizeLines_g", "XonshVerif.Proofs.TokGaps"), ("XV.Rx.m_onlyChars", "XonshVerif.Proofs.RegexChars"),
             ("XV.Tz.all_tokens_are_source_slices", "XonshVerif.Properties.C08"), ("XV.Tz.fstring_tokens_are_source_slices", "XonshVerif.Properties.C08"), ("XV.Rx.m_endsWith", "XonshVerif.Proofs.RegexSuffix"), ("XV.Rx.m_fixedLen", "XonshVerif.Proofs.RegexSuffix"), ("XV.Tz.tokenizeLines_ft", "XonshVerif.Proofs.FstringText"),
             ("XV.Tz.tokens_in_position_order", "XonshVerif.Properties.C08"), ("XV.Tz.tokenizeLines_ord", "XonshVerif.Proofs.TokOrder"), ("XV.Tz.scanLine_ord", "XonshVerif.Proofs.TokOrder"),
             ("XV.Tz.handleFstringProgs_ord", "XonshVerif.Proofs.TokOrder"), ("XV.Tz.tokens_are_source_slices", "XonshVerif.Properties.C08"), ("XV.Tz.splitLines_nonLastEndNL", "XonshVerif.Properties.C08"), ("XV.Tz.tokenizeLines_cov", "XonshVerif.Proofs.TokCover"),
